@@ -99,7 +99,8 @@ def generate(seed, prop):
     equal = rng.random() < 0.75
     from ..core import deep
     nmax = (12 if prop != "C20" else 8) * (2 if deep() else 1)
-    curves = CV.draw_curve_sets(rng, len(f), n_az, equal_counts=equal, nmax=nmax)
+    nmin = 1 if (kind == "azimuthal" and not equal and rng.random() < 0.5) else 2
+    curves = CV.draw_curve_sets(rng, len(f), n_az, equal_counts=equal, nmin=nmin, nmax=nmax)
     if kind == "diffuse":
         curves = [[curves[0][0]]]
     azimuths = CV.draw_azimuths(rng, n_az)
@@ -182,13 +183,14 @@ def generate(seed, prop):
 
 def draw_op(rng, name, f, kind, curves, azimuths, fault_rate=0.0):
     if name == "update_peaks":
-        return {"op": name, "range": draw_range(rng, f),
+        return {"op": name, "range": draw_range(rng, f), "rnum": rng.choice(["float", "float", "np", "int"]),
                 "rtype": rng.choice(["tuple", "tuple", "list"]), "kwargs": draw_kwargs(rng)}
     if name == "fdwra":
         return {"op": name, "n": rng.choice([0.5, 1.0, 1.5, 2.0, 2.0, 2.5, 3.0]),
                 "max_iterations": rng.choice([1, 1, 2, 3, 5, 50, 50]),
                 "dfn": rng.choice(DISTS), "dmc": rng.choice(DISTS),
                 "range": draw_range(rng, f) if rng.random() < 0.6 else [None, None],
+                "rnum": rng.choice(["float", "float", "np", "int"]),
                 "rtype": rng.choice(["tuple", "tuple", "list"]), "kwargs": draw_kwargs(rng)}
     if name == "set_masks":
         a = rng.randrange(len(curves))
@@ -366,9 +368,20 @@ def _parse_mask(msg):
     return [t == "True" for t in toks]
 
 
+def range_arg(op):
+    """The search range as the caller passes it: tuple or list, python floats, numpy scalars or ints."""
+    vals = list(op["range"])
+    num = op.get("rnum", "float")
+    if num == "np":
+        vals = [None if v is None else np.float64(v) for v in vals]
+    elif num == "int":
+        vals = [None if v is None else (int(v) if float(v).is_integer() else v) for v in vals]
+    return tuple(vals) if op.get("rtype", "tuple") == "tuple" else vals
+
+
 def call_fdwra(obj, op):
     H = hv()
-    rng_arg = tuple(op["range"]) if op["rtype"] == "tuple" else list(op["range"])
+    rng_arg = range_arg(op)
     lg = logging.getLogger("hvsrpy.window_rejection")
     h = FdwraTrace()
     old_level, old_prop = lg.level, lg.propagate
@@ -441,7 +454,7 @@ def apply_op(ctx, st, op, prop):
             st.member_same = {a for a, (r_, k_) in st.member.items() if tuple(r_) == tuple(op["range"])}
         st.member = {}
     if name == "update_peaks":
-        r = tuple(op["range"]) if op["rtype"] == "tuple" else list(op["range"])
+        r = range_arg(op)
         for key, obj in st.objs.items():
             targets = obj if key == "curves" else [obj]
             for t in targets:
@@ -1056,7 +1069,7 @@ def prepare_c06(ctx, st, which, op):
     pre = {"which": which}
     # entry state: what the object looks like right after the peak search on entry
     entry = copy.deepcopy(obj)
-    rng_arg = tuple(op["range"]) if op["rtype"] == "tuple" else list(op["range"])
+    rng_arg = range_arg(op)
     entry.update_peaks_bounded(search_range_in_hz=rng_arg, find_peaks_kwargs=copy.deepcopy(op["kwargs"]))
     subs = [entry] if which == "trad" else entry.hvsrs
     amps = [st.amps[0]] if which == "trad" else st.amps
